@@ -30,6 +30,14 @@ Definition cbfin (c : cbst) : bool :=
   match c with Idle => true | Susp _ slot _ => Nat.eqb slot FIN | InCall _ slot _ => Nat.eqb slot FIN end.
 Definition incall (c : cbst) : bool := match c with InCall _ _ _ => true | _ => false end.
 
+Lemma finish_props : forall t c h,
+  t_stack (fst (finish t c h)) = [] /\ t_id (fst (finish t c h)) = t_id t /\
+  t_model (fst (finish t c h)) = t_model t /\ t_res (fst (finish t c h)) <> None /\
+  h_mstate (snd (finish t c h)) = h_mstate h /\ h_done (snd (finish t c h)) = h_done h /\
+  h_log (snd (finish t c h)) = h_log h /\ h_next (snd (finish t c h)) = h_next h /\
+  h_queues (snd (finish t c h)) = h_queues h.
+Proof. intros. unfold finish. destruct (own_ctx t); simpl; repeat split; discriminate. Qed.
+
 Section Inv.
   Variable defs : list evdef.
   Variable mode : qmode.
@@ -292,8 +300,12 @@ Section Inv.
   Proof.
     intros prot t c h t' c' h' st E [Hs Hi] Hh. unfold micro in E.
     destruct (t_stack t) as [|k rest] eqn:Hstk.
-    { destruct c; inversion E; subst; try (rewrite Hstk; split; [split; assumption | assumption]);
-        (split; [split; constructor | destruct Hh; split; assumption]). }
+    { destruct c; try (inversion E; subst; rewrite Hstk; split; [split; assumption | assumption]);
+        (match type of E with context [finish ?tt ?cc ?hh] =>
+           destruct (finish_props tt cc hh) as [F1 [_ [_ [_ [F2 [F3 _]]]]]];
+           destruct (finish tt cc hh) as [t2 h2]; simpl in *; inversion E; subst end;
+         rewrite F1; split; [split; constructor | destruct Hh as [Hd Hst]; split;
+           [unfold done_ok; rewrite F3; exact Hd | unfold states_ok; rewrite F2; exact Hst]]). }
     simpl in Hi. inversion Hs as [|? ? Hf Hr]; subst.
     set (f := kframe k) in *.
     destruct c as [|r|x].
@@ -519,15 +531,16 @@ Section Inv.
     - apply IH. split; simpl; [exact Hts | apply pop_cancel_sh; exact Hh].
   Qed.
 
-  Lemma step_ok : forall top prot fuel s e, Inv s -> Inv (step defs mode top prot fuel s e).
+  Lemma step_ok : forall top prot preds fuel s e, Inv s -> Inv (step defs mode top prot preds fuel s e).
   Proof.
-    intros top prot fuel s e [Hts Hh]. unfold step.
+    intros top prot preds fuel s e [Hts Hh]. unfold step.
     destruct (s_oof s); [split; assumption|].
-    destruct (mem e top && negb (mem e (s_started s))).
+    destruct (can_start top preds s e).
     - apply deliver_all_ok.
-      set (h0 := mkH _ _ _ (h_reg (s_sh s) ++ _) _ _ _ _).
-      assert (Hh0 : sh_ok h0) by (destruct Hh; split; assumption).
-      assert (Hts0 : Forall task_ok (s_tasks s ++ [mkT e (e_model (edef defs e)) (mem e prot) [] None])).
+      set (t0 := mkT e _ _ [] None _).
+      set (h0 := match inherited_ctx preds s e with Some _ => s_sh s | None => _ end).
+      assert (Hh0 : sh_ok h0) by (subst h0; destruct (inherited_ctx preds s e); destruct Hh; split; assumption).
+      assert (Hts0 : Forall task_ok (s_tasks s ++ [t0])).
       { apply Forall_app. split; [exact Hts|]. constructor; [split; constructor | constructor]. }
       pose proof (call_trigger_sh e h0 Hh0) as Hsh.
       destruct (call_trigger defs mode e h0) as [r h1|x h1|k h1] eqn:Ect; simpl in Hsh.
@@ -541,9 +554,9 @@ Section Inv.
       apply deliver_all_ok. apply run_at_ok; assumption.
   Qed.
 
-  Lemma schedule_ok : forall top prot fuel sched s, Inv s -> Inv (run_schedule defs mode top prot fuel s sched).
+  Lemma schedule_ok : forall top prot preds fuel sched s, Inv s -> Inv (run_schedule defs mode top prot preds fuel s sched).
   Proof.
-    intros top prot fuel sched. unfold run_schedule.
+    intros top prot preds fuel sched. unfold run_schedule.
     induction sched as [|e r IH]; intros s H; simpl; [exact H|]. apply IH. apply step_ok. exact H.
   Qed.
 
@@ -604,15 +617,16 @@ Section Reg.
   (* one move of a task either leaves async_tasks and its own registration alone, or is the return of its
      top-level process_context, which removes exactly its own entry *)
   Lemma micro_reg : forall prot t c h t' c' h' st,
-    micro defs prot t c h = (t', c', h', st) ->
+    micro defs prot t c h = (t', c', h', st) -> own_ctx t = true ->
     (t_id t' = t_id t /\ t_model t' = t_model t /\
-    ((t_res t' = t_res t /\ h_reg h' = h_reg h) \/
-     (st = Finished /\ t_res t' <> None /\ h_reg h' = remove_first (t_model t, t_id t) (h_reg h)))) /\
+    ((t_res t' = t_res t /\ h_reg h' = h_reg h /\ t_ctx t' = t_ctx t) \/
+     (st = Finished /\ t_res t' <> None /\ h_reg h' = remove_first (t_model t, t_id t) (h_reg h) /\
+      t_ctx t' = None))) /\
     (t_res t = None -> t_res t' <> None -> t_stack t' = []).
   Proof.
-    intros prot t c h t' c' h' st E.
+    intros prot t c h t' c' h' st E Hown.
     assert (Hlast : t_res t = None -> t_res t' <> None -> t_stack t' = []).
-    { unfold micro in E. destruct (t_stack t) as [|k rest] eqn:Hstk.
+    { unfold micro, finish in E. rewrite Hown in E. destruct (t_stack t) as [|k rest] eqn:Hstk.
       - destruct c; inversion E; subst; simpl; auto.
       - intros H1 H2. exfalso. apply H2. rewrite <- H1.
         destruct c; destruct (f_cb (kframe k)); try (inversion E; subst; reflexivity).
@@ -623,24 +637,26 @@ Section Reg.
         + destruct (cb_return _ _). inversion E; subst. reflexivity.
         + destruct (raise_in _ _ _). inversion E; subst. reflexivity. }
     split; [|exact Hlast]. clear Hlast.
-    unfold micro in E.
+    unfold micro, finish in E. rewrite Hown in E.
     destruct (t_stack t) as [|k rest] eqn:Hstk.
     { destruct c; inversion E; subst; simpl; repeat split; auto; right; repeat split; discriminate. }
     destruct c as [|r|x].
-    - destruct (f_cb (kframe k)); try (inversion E; subst; auto; fail).
+    - destruct (f_cb (kframe k)); try (inversion E; subst; auto 6; fail).
       destruct (f_code (kframe k)) as [|i code].
       + destruct (f_fin (kframe k)).
         * destruct (after_frame _ _ _ _ _) as [[stk c2] h2] eqn:Eaf. inversion E; subst. simpl.
-          repeat split; auto. left. split; [reflexivity|].
+          repeat split; auto. left. split; [reflexivity|]. split; [|reflexivity].
           change h' with (snd (stk, c', h')). rewrite <- Eaf. rewrite after_frame_reg. reflexivity.
-        * inversion E; subst. simpl. auto.
-      + destruct i; inversion E; subst; simpl; auto.
-    - destruct (f_cb (kframe k)); try (inversion E; subst; auto; fail).
+        * inversion E; subst. simpl. auto 6.
+      + destruct i; inversion E; subst; simpl; auto 6.
+    - destruct (f_cb (kframe k)); try (inversion E; subst; auto 6; fail).
       destruct (cb_return _ _) as [f2 h2] eqn:Ecb. inversion E; subst. simpl. repeat split; auto. left.
-      split; [reflexivity|]. change h' with (snd (f2, h')). rewrite <- Ecb. rewrite cb_return_reg. reflexivity.
-    - destruct (f_cb (kframe k)); try (inversion E; subst; auto; fail).
+      split; [reflexivity|]. split; [|reflexivity].
+      change h' with (snd (f2, h')). rewrite <- Ecb. rewrite cb_return_reg. reflexivity.
+    - destruct (f_cb (kframe k)); try (inversion E; subst; auto 6; fail).
       destruct (raise_in _ _ _) as [f2 h2] eqn:Er. inversion E; subst. simpl. repeat split; auto. left.
-      split; [reflexivity|]. change h' with (snd (f2, h')). rewrite <- Er. rewrite raise_in_reg. reflexivity.
+      split; [reflexivity|]. split; [|reflexivity].
+      change h' with (snd (f2, h')). rewrite <- Er. rewrite raise_in_reg. reflexivity.
   Qed.
 
   Lemma reg_of_app : forall a b, reg_of (a ++ b) = reg_of a ++ reg_of b.
@@ -667,27 +683,34 @@ Section Reg.
     apply filter_In in Hin. destruct Hin as [Hin _]. subst p. simpl. apply in_map. exact Hin.
   Qed.
 
-  (* running one task: the table follows the task list in which the task is replaced by its new version *)
+  Lemma own_ctx_same : forall t t', t_id t' = t_id t -> t_ctx t' = t_ctx t -> own_ctx t' = own_ctx t.
+  Proof. intros t t' H1 H2. unfold own_ctx. rewrite H1, H2. reflexivity. Qed.
+
+  (* running one task: the table follows the task list in which the task is replaced by its new version; the
+     task's current_context marker stays its own while it runs and is reset when it has finished *)
   Lemma run_reg : forall fuel prot t c h t' h' b l1 l2,
     run defs fuel prot t c h = (t', h', b) ->
-    t_res t = None -> ~ In (t_id t) (map t_id l1) ->
+    t_res t = None -> own_ctx t = true -> ~ In (t_id t) (map t_id l1) ->
     h_reg h = reg_of (l1 ++ t :: l2) ->
-    h_reg h' = reg_of (l1 ++ t' :: l2) /\ t_id t' = t_id t /\ (t_res t' <> None -> t_stack t' = []).
+    h_reg h' = reg_of (l1 ++ t' :: l2) /\ t_id t' = t_id t /\ (t_res t' <> None -> t_stack t' = []) /\
+    (t_res t' = None -> own_ctx t' = true) /\ (t_res t' <> None -> t_ctx t' = None).
   Proof.
-    induction fuel as [|fu IH]; intros prot t c h t' h' b l1 l2 E Hres Hnin Hreg; simpl in E.
-    - inversion E; subst. repeat split; auto. congruence.
+    induction fuel as [|fu IH]; intros prot t c h t' h' b l1 l2 E Hres Hown Hnin Hreg; simpl in E.
+    - inversion E; subst. repeat split; auto; congruence.
     - destruct (micro defs prot t c h) as [[[t1 c1] h1] st] eqn:Em.
-      destruct (micro_reg _ _ _ _ _ _ _ _ Em) as [[Hid [Hmod [[Hr Hg]|[Hst [Hr Hg]]]]] Hlast].
+      destruct (micro_reg _ _ _ _ _ _ _ _ Em Hown) as [[Hid [Hmod [[Hr [Hg Hc]]|[Hst [Hr [Hg Hc]]]]]] Hlast].
       + assert (Hreg1 : h_reg h1 = reg_of (l1 ++ t1 :: l2)).
         { rewrite Hg, Hreg. rewrite !reg_of_app. f_equal.
           rewrite (reg_of_cons_un t) by exact Hres. rewrite (reg_of_cons_un t1) by congruence.
           rewrite Hid, Hmod. reflexivity. }
+        assert (Hown1 : own_ctx t1 = true) by (rewrite (own_ctx_same t t1 Hid Hc); exact Hown).
         destruct st.
         * rewrite <- Hid in Hnin. rewrite Hres in Hr.
-          destruct (IH _ _ _ _ _ _ _ _ _ E Hr Hnin Hreg1) as [H1 [H2 H3]]. repeat split; [exact H1 | congruence | exact H3].
-        * inversion E; subst. repeat split; auto.
-        * inversion E; subst. repeat split; auto.
-      + subst st. inversion E; subst. split; [|split; [exact Hid | auto]].
+          destruct (IH _ _ _ _ _ _ _ _ _ E Hr Hown1 Hnin Hreg1) as [H1 [H2 [H3 [H4 H5]]]].
+          repeat split; [exact H1 | congruence | exact H3 | exact H4 | exact H5].
+        * inversion E; subst. repeat split; auto; congruence.
+        * inversion E; subst. repeat split; auto; congruence.
+      + subst st. inversion E; subst. split; [|split; [exact Hid | split; [auto | split; [congruence | auto]]]].
         rewrite Hg, Hreg. rewrite !reg_of_app. rewrite (reg_of_cons_un t) by exact Hres.
         rewrite (reg_of_cons_fin t') by exact Hr.
         apply remove_first_notin.
@@ -695,10 +718,14 @@ Section Reg.
   Qed.
 
   (* ---- system level ---- *)
+  Definition ctx_ok (t : task) : Prop :=
+    (t_res t = None -> own_ctx t = true) /\ (t_res t <> None -> t_ctx t = None).
+
   Definition RI (s : state) : Prop :=
     h_reg (s_sh s) = reg_of (s_tasks s) /\ NoDup (map t_id (s_tasks s)) /\
     (forall t, In t (s_tasks s) -> In (t_id t) (s_started s)) /\
-    (forall t, In t (s_tasks s) -> t_res t <> None -> t_stack t = []).
+    (forall t, In t (s_tasks s) -> t_res t <> None -> t_stack t = []) /\
+    (forall t, In t (s_tasks s) -> ctx_ok t).
 
   Lemma find_idx_split : forall p ts i, find_idx p ts = Some i ->
     exists l1 t0 l2, ts = l1 ++ t0 :: l2 /\ length l1 = i /\ p t0 = true /\ nth i ts dummy_task = t0.
@@ -719,11 +746,12 @@ Section Reg.
     NoDup (map t_id (s_tasks s)) ->
     (forall t, In t (s_tasks s) -> In (t_id t) (s_started s)) ->
     (forall t, In t (s_tasks s) -> t_res t <> None -> t_stack t = []) ->
-    t_id t = t_id t0 -> t_model t = t_model t0 -> t_res t = None -> t_res t0 = None ->
+    (forall t, In t (s_tasks s) -> ctx_ok t) ->
+    t_id t = t_id t0 -> t_model t = t_model t0 -> t_res t = None -> t_res t0 = None -> own_ctx t = true ->
     h_reg h = reg_of (s_tasks s) ->
     RI (run_at defs fuel s (length l1) t c h).
   Proof.
-    intros fuel s l1 t0 l2 t c h Hts Hnd Hst Hfin Hid Hmod Hres Hres0 Hreg. unfold run_at.
+    intros fuel s l1 t0 l2 t c h Hts Hnd Hst Hfin Hctx Hid Hmod Hres Hres0 Hown Hreg. unfold run_at.
     destruct (run defs fuel _ t c h) as [[t' h'] ok] eqn:E.
     assert (Hnin : ~ In (t_id t) (map t_id l1)).
     { rewrite Hts in Hnd. rewrite map_app in Hnd. simpl in Hnd. apply NoDup_remove_2 in Hnd.
@@ -731,8 +759,8 @@ Section Reg.
     assert (Hreg' : h_reg h = reg_of (l1 ++ t :: l2)).
     { rewrite Hreg, Hts. rewrite !reg_of_app. f_equal. rewrite (reg_of_cons_un t0) by exact Hres0.
       rewrite (reg_of_cons_un t) by exact Hres. rewrite Hid, Hmod. reflexivity. }
-    destruct (run_reg _ _ _ _ _ _ _ _ _ _ E Hres Hnin Hreg') as [H1 [H2 H3]].
-    rewrite Hts. rewrite replace_nth_split. unfold RI; simpl. split; [exact H1|]. split; [|split].
+    destruct (run_reg _ _ _ _ _ _ _ _ _ _ E Hres Hown Hnin Hreg') as [H1 [H2 [H3 [H4 H5]]]].
+    rewrite Hts. rewrite replace_nth_split. unfold RI; simpl. split; [exact H1|]. split; [|split; [|split]].
     - rewrite Hts in Hnd. rewrite map_app in *. simpl in *. rewrite H2, Hid. exact Hnd.
     - intros u Hu. apply in_app_or in Hu. destruct Hu as [Hu|[Hu|Hu]].
       + apply Hst. rewrite Hts. apply in_or_app. left. exact Hu.
@@ -742,21 +770,25 @@ Section Reg.
       + apply Hfin. rewrite Hts. apply in_or_app. left. exact Hu.
       + subst u. exact H3.
       + apply Hfin. rewrite Hts. apply in_or_app. right. right. exact Hu.
+    - intros u Hu. apply in_app_or in Hu. destruct Hu as [Hu|[Hu|Hu]].
+      + apply Hctx. rewrite Hts. apply in_or_app. left. exact Hu.
+      + subst u. split; assumption.
+      + apply Hctx. rewrite Hts. apply in_or_app. right. right. exact Hu.
   Qed.
 
   Lemma resume_reg : forall t h t1 c h1, resume defs mode t h = (t1, c, h1) ->
-    t_id t1 = t_id t /\ t_model t1 = t_model t /\ t_res t1 = t_res t /\ h_reg h1 = h_reg h.
+    t_id t1 = t_id t /\ t_model t1 = t_model t /\ t_res t1 = t_res t /\ h_reg h1 = h_reg h /\ t_ctx t1 = t_ctx t.
   Proof.
     intros t h t1 c h1 E. unfold resume in E.
-    destruct (t_stack t) as [|k rest]; [inversion E; subst; auto|].
-    destruct (f_cb (kframe k)) as [|j slot a|]; try (inversion E; subst; auto; fail).
+    destruct (t_stack t) as [|k rest]; [inversion E; subst; auto 6|].
+    destruct (f_cb (kframe k)) as [|j slot a|]; try (inversion E; subst; auto 6; fail).
     destruct a as [| |e'|m].
     - destruct (cb_return _ _) as [f2 h2] eqn:Ecb. inversion E; subst. simpl. repeat split; auto.
       change h1 with (snd (f2, h1)). rewrite <- Ecb. rewrite cb_return_reg. reflexivity.
     - destruct (raise_in _ _ _) as [f2 h2] eqn:Er. inversion E; subst. simpl. repeat split; auto.
       change h1 with (snd (f2, h1)). rewrite <- Er. rewrite raise_in_reg. reflexivity.
     - pose proof (call_trigger_reg e' h) as Hc.
-      destruct (call_trigger defs mode e' h); inversion E; subst; simpl in *; auto.
+      destruct (call_trigger defs mode e' h); inversion E; subst; simpl in *; auto 6.
     - pose proof (remove_model_reg m h) as Hm.
       destruct (remove_model defs mode m h) as [[x|] h2]; simpl in Hm.
       + destruct (raise_in _ _ _) as [f2 h3] eqn:Er. inversion E; subst. simpl. repeat split; auto.
@@ -766,11 +798,11 @@ Section Reg.
   Qed.
 
   Lemma deliver_cancel_reg : forall t h t1 h1, deliver_cancel t h = (t1, h1) ->
-    t_id t1 = t_id t /\ t_model t1 = t_model t /\ t_res t1 = t_res t /\ h_reg h1 = h_reg h.
+    t_id t1 = t_id t /\ t_model t1 = t_model t /\ t_res t1 = t_res t /\ h_reg h1 = h_reg h /\ t_ctx t1 = t_ctx t.
   Proof.
     intros t h t1 h1 E. unfold deliver_cancel in E.
-    destruct (t_stack t) as [|k rest]; [inversion E; subst; auto|].
-    destruct (f_cb (kframe k)); try (inversion E; subst; auto; fail).
+    destruct (t_stack t) as [|k rest]; [inversion E; subst; auto 6|].
+    destruct (f_cb (kframe k)); try (inversion E; subst; auto 6; fail).
     destruct (raise_in _ _ _) as [f2 h2] eqn:Er. inversion E; subst. simpl. repeat split; auto.
     change h1 with (snd (f2, h1)). rewrite <- Er. rewrite raise_in_reg. reflexivity.
   Qed.
@@ -779,32 +811,60 @@ Section Reg.
   Proof.
     intros fuel k. induction k as [|k IH]; intros s HRI; simpl; [exact HRI|].
     destruct (h_cancel (s_sh s)) as [|u l] eqn:Hc; [exact HRI|].
-    destruct HRI as [Hreg [Hnd [Hst Hfin]]].
-    destruct (find_idx _ _) as [i|] eqn:Hfi.
-    - destruct (find_idx_split _ _ _ Hfi) as [l1 [t0 [l2 [Hts [Hlen [Hp Hnth]]]]]].
-      rewrite Hnth. destruct (suspended t0).
-      + destruct (deliver_cancel _ _) as [t1 h1] eqn:Ed.
-        destruct (deliver_cancel_reg _ _ _ _ Ed) as [Hid [Hmod [Hres Hr]]].
-        apply andb_true_iff in Hp. destruct Hp as [_ Hp].
-        assert (Hres0 : t_res t0 = None) by (destruct (t_res t0); [discriminate | reflexivity]).
-        apply IH. rewrite <- Hlen. eapply run_at_RI; eauto; try congruence.
-        rewrite Hr. exact Hreg.
-      + apply IH. split; [|split; [|split]]; simpl; assumption.
-    - apply IH. split; [|split; [|split]]; simpl; assumption.
+    destruct HRI as [Hreg [Hnd [Hst [Hfin Hctx]]]].
+    assert (Hskip : RI (mkS (s_tasks s) (pop_cancel (s_sh s)) (s_started s) (s_oof s)))
+      by (split; [|split; [|split; [|split]]]; simpl; assumption).
+    destruct (find_idx _ _) as [i|] eqn:Hfi; [|apply IH; exact Hskip].
+    destruct (find_idx_split _ _ _ Hfi) as [l1 [t0 [l2 [Hts [Hlen [Hp Hnth]]]]]].
+    rewrite Hnth. destruct (suspended t0); [|apply IH; exact Hskip].
+    destruct (deliver_cancel _ _) as [t1 h1] eqn:Ed.
+    destruct (deliver_cancel_reg _ _ _ _ Ed) as [Hid [Hmod [Hres [Hr Hcx]]]].
+    apply andb_true_iff in Hp. destruct Hp as [_ Hp].
+    assert (Hres0 : t_res t0 = None) by (destruct (t_res t0); [discriminate | reflexivity]).
+    assert (Hown0 : own_ctx t0 = true).
+    { apply (Hctx t0); [rewrite Hts; apply in_or_app; right; left; reflexivity | exact Hres0]. }
+    apply IH. rewrite <- Hlen. eapply run_at_RI; eauto; try congruence.
+    - rewrite (own_ctx_same t0 t1 Hid Hcx). exact Hown0.
+    - rewrite Hr. exact Hreg.
   Qed.
 
-  Lemma step_RI : forall top prot fuel s e, RI s -> RI (step defs mode top prot fuel s e).
+  Lemma find_ctx_none : forall (ts : list task) p,
+    (forall t, In t ts -> ctx_ok t) -> NoDup (map t_id ts) ->
+    existsb (fun t => Nat.eqb (t_id t) p && task_done t) ts = true ->
+    match find (fun t => Nat.eqb (t_id t) p) ts with Some t => t_ctx t | None => None end = None.
   Proof.
-    intros top prot fuel s e HRI. unfold step.
+    induction ts as [|x ts IH]; intros p Hc Hnd Hex; simpl in *; [reflexivity|].
+    destruct (Nat.eqb (t_id x) p) eqn:Eid; simpl in Hex.
+    - destruct (task_done x) eqn:Ed; simpl in Hex.
+      + apply (Hc x (or_introl eq_refl)). unfold task_done in Ed. destruct (t_res x); [discriminate | discriminate].
+      + exfalso. inversion Hnd as [|? ? Hn _]; subst. apply Hn. apply Nat.eqb_eq in Eid. rewrite Eid.
+        apply existsb_exists in Hex. destruct Hex as [y [Hy Hy2]]. apply andb_true_iff in Hy2. destruct Hy2 as [Hy2 _].
+        apply Nat.eqb_eq in Hy2. rewrite <- Hy2. apply in_map. exact Hy.
+    - inversion Hnd; subst. apply IH; auto.
+  Qed.
+
+  (* the marker a new trigger finds is always empty: whatever ran before in that asyncio task has reset it *)
+  Lemma inherited_none : forall top preds s e, RI s -> can_start top preds s e = true -> inherited_ctx preds s e = None.
+  Proof.
+    intros top preds s e [_ [Hnd [_ [_ Hctx]]]] Hcs. unfold can_start in Hcs. unfold inherited_ctx.
+    destruct (pred_of preds e) as [p|]; [|reflexivity].
+    apply andb_true_iff in Hcs. destruct Hcs as [_ Hex]. apply find_ctx_none; assumption.
+  Qed.
+
+  Lemma step_RI : forall top prot preds fuel s e, RI s -> RI (step defs mode top prot preds fuel s e).
+  Proof.
+    intros top prot preds fuel s e HRI. unfold step.
     destruct (s_oof s); [exact HRI|].
-    destruct HRI as [Hreg [Hnd [Hst Hfin]]].
-    destruct (mem e top && negb (mem e (s_started s))) eqn:Hstart.
+    destruct (can_start top preds s e) eqn:Hstart.
     - apply deliver_all_RI.
+      rewrite (inherited_none top preds s e HRI Hstart).
+      destruct HRI as [Hreg [Hnd [Hst [Hfin Hctx]]]].
+      unfold can_start in Hstart. apply andb_true_iff in Hstart. destruct Hstart as [Hstart _].
       apply andb_true_iff in Hstart. destruct Hstart as [_ Hns]. apply negb_true_iff in Hns.
       assert (Hnew : ~ In e (s_started s)).
       { intros Hin. unfold mem in Hns. assert (existsb (Nat.eqb e) (s_started s) = true).
         { apply existsb_exists. exists e. split; [exact Hin | apply Nat.eqb_refl]. } congruence. }
-      set (t0 := mkT e (e_model (edef defs e)) (mem e prot) [] None).
+      set (t0 := mkT e (e_model (edef defs e)) (mem e prot) [] None (Some e)).
       set (h0 := mkH _ _ _ (h_reg (s_sh s) ++ _) _ _ _ _).
       set (s0 := mkS (s_tasks s ++ [t0]) h0 (e :: s_started s) false).
       assert (Hts0 : s_tasks s0 = s_tasks s ++ t0 :: []) by reflexivity.
@@ -820,32 +880,40 @@ Section Reg.
       { simpl. intros t Ht. apply in_app_or in Ht. destruct Ht as [Ht|[Ht|[]]]; [right; apply Hst; exact Ht | left; subst t; reflexivity]. }
       assert (Hfin0 : forall t, In t (s_tasks s0) -> t_res t <> None -> t_stack t = []).
       { simpl. intros t Ht. apply in_app_or in Ht. destruct Ht as [Ht|[Ht|[]]]; [apply Hfin; exact Ht | subst t; reflexivity]. }
+      assert (Hown0 : own_ctx t0 = true) by (unfold own_ctx; simpl; apply Nat.eqb_refl).
+      assert (Hctx0 : forall t, In t (s_tasks s0) -> ctx_ok t).
+      { simpl. intros t Ht. apply in_app_or in Ht. destruct Ht as [Ht|[Ht|[]]]; [apply Hctx; exact Ht|].
+        subst t. split; [intros _; exact Hown0 | simpl; congruence]. }
       assert (Hreg0 : h_reg h0 = reg_of (s_tasks s0)).
       { simpl. rewrite reg_of_app, Hreg. reflexivity. }
       pose proof (call_trigger_reg e h0) as Hc.
       destruct (call_trigger defs mode e h0) as [r h1|x h1|k h1] eqn:Ect; simpl in Hc;
         (eapply (run_at_RI fuel s0 (s_tasks s) t0 []); eauto; rewrite Hc; exact Hreg0).
-    - destruct (find_idx _ _) as [i|] eqn:Hfi; [|split; [|split; [|split]]; assumption].
+    - destruct HRI as [Hreg [Hnd [Hst [Hfin Hctx]]]].
+      destruct (find_idx _ _) as [i|] eqn:Hfi; [|split; [|split; [|split; [|split]]]; assumption].
       destruct (find_idx_split _ _ _ Hfi) as [l1 [t0 [l2 [Hts [Hlen [Hp Hnth]]]]]].
       rewrite Hnth.
       destruct (resume _ _ _ _) as [[t1 c] h1] eqn:Er.
-      destruct (resume_reg _ _ _ _ _ Er) as [Hid [Hmod [Hres Hr]]].
+      destruct (resume_reg _ _ _ _ _ Er) as [Hid [Hmod [Hres [Hr Hcx]]]].
       assert (Hres0 : t_res t0 = None).
       { destruct (t_res t0) eqn:Hr0; [|reflexivity]. exfalso.
         assert (Hs0 : t_stack t0 = []).
         { apply Hfin; [rewrite Hts; apply in_or_app; right; left; reflexivity | congruence]. }
         unfold waiting_on in Hp. rewrite Hs0 in Hp. discriminate. }
-      apply deliver_all_RI. rewrite <- Hlen. eapply run_at_RI; eauto; congruence.
+      assert (Hown0 : own_ctx t0 = true).
+      { apply (Hctx t0); [rewrite Hts; apply in_or_app; right; left; reflexivity | exact Hres0]. }
+      apply deliver_all_RI. rewrite <- Hlen. eapply run_at_RI; eauto; try congruence.
+      rewrite (own_ctx_same t0 t1 Hid Hcx). exact Hown0.
   Qed.
 
-  Lemma schedule_RI : forall top prot fuel sched s, RI s -> RI (run_schedule defs mode top prot fuel s sched).
+  Lemma schedule_RI : forall top prot preds fuel sched s, RI s -> RI (run_schedule defs mode top prot preds fuel s sched).
   Proof.
-    intros top prot fuel sched. unfold run_schedule.
+    intros top prot preds fuel sched. unfold run_schedule.
     induction sched as [|e r IH]; intros s H; simpl; [exact H|]. apply IH. apply step_RI. exact H.
   Qed.
 
   Lemma init_RI : forall inits, RI (init_state mode inits).
-  Proof. intros. split; [reflexivity|]. split; [constructor|]. split; intros t []. Qed.
+  Proof. intros. split; [reflexivity|]. split; [constructor|]. split; [|split]; intros t []. Qed.
 
   Lemma quiescent_reg_empty : forall s, RI s -> quiescent s = true -> h_reg (s_sh s) = [].
   Proof.
@@ -1000,10 +1068,17 @@ Section QueueLocal.
 End QueueLocal.
 
 (* ------------------------------------------------------------------ cancellation, locally *)
-Lemma finish_cancelled : forall t h,
+Lemma finish_cancelled : forall t h, own_ctx t = true ->
   t_res (fst (finish t (CExn X_CANCEL) h)) = Some (RBool false) /\
-  h_reg (snd (finish t (CExn X_CANCEL) h)) = remove_first (t_model t, t_id t) (h_reg h).
-Proof. intros. split; reflexivity. Qed.
+  h_reg (snd (finish t (CExn X_CANCEL) h)) = remove_first (t_model t, t_id t) (h_reg h) /\
+  t_ctx (fst (finish t (CExn X_CANCEL) h)) = None.
+Proof. intros t h H. unfold finish. rewrite H. repeat split; reflexivity. Qed.
+
+(* whatever the outcome — value, error, cancellation — the top-level return resets the marker and unregisters *)
+Lemma finish_resets : forall t c h, own_ctx t = true ->
+  t_ctx (fst (finish t c h)) = None /\
+  h_reg (snd (finish t c h)) = remove_first (t_model t, t_id t) (h_reg h).
+Proof. intros t c h H. unfold finish. rewrite H. split; reflexivity. Qed.
 
 Lemma raise_in_body : forall f x h, f_fin f = false ->
   let f' := fst (raise_in f x h) in
@@ -1041,25 +1116,25 @@ Proof.
     inversion Hd; subst. constructor; auto.
 Qed.
 
-Lemma all_schedules_hists : forall defs mode n top prot fuel inits sched,
+Lemma all_schedules_hists : forall defs mode n top prot preds fuel inits sched,
   forallb (wf_def n) defs = true -> Forall (fun x => x < n) inits ->
-  let s := run_schedule defs mode top prot fuel (init_state mode inits) sched in
+  let s := run_schedule defs mode top prot preds fuel (init_state mode inits) sched in
   Forall hist_ok (live_hists s ++ done_hists s) /\ Forall (fun x => x < n) (h_mstate (s_sh s)).
 Proof.
-  intros defs mode n top prot fuel inits sched Hwf Hin s. apply Inv_hists.
+  intros defs mode n top prot preds fuel inits sched Hwf Hin s. apply Inv_hists.
   apply schedule_ok; [exact Hwf|]. apply init_ok. exact Hin.
 Qed.
 
-Lemma all_schedules_quiescent : forall defs mode n top prot fuel inits sched,
+Lemma all_schedules_quiescent : forall defs mode n top prot preds fuel inits sched,
   forallb (wf_def n) defs = true -> Forall (fun x => x < n) inits ->
-  let s := run_schedule defs mode top prot fuel (init_state mode inits) sched in
+  let s := run_schedule defs mode top prot preds fuel (init_state mode inits) sched in
   h_reg (s_sh s) = reg_of (s_tasks s) /\
   (quiescent s = true -> h_reg (s_sh s) = [] /\ Forall (fun x => x < n) (h_mstate (s_sh s))).
 Proof.
-  intros defs mode n top prot fuel inits sched Hwf Hin s.
+  intros defs mode n top prot preds fuel inits sched Hwf Hin s.
   assert (HRI : RI s) by (apply schedule_RI; apply init_RI).
   split; [apply HRI|]. intros Hq. split; [apply quiescent_reg_empty; assumption|].
-  apply (all_schedules_hists defs mode n top prot fuel inits sched Hwf Hin).
+  apply (all_schedules_hists defs mode n top prot preds fuel inits sched Hwf Hin).
 Qed.
 
 Lemma no_set_after_cancel : forall l1 it l2 k m d,
@@ -1067,4 +1142,21 @@ Lemma no_set_after_cancel : forall l1 it l2 k m d,
 Proof.
   intros l1 it l2 k m d H Hm Hin. pose proof (hist_cancel_no_transition l1 it l2 H Hm) as HF.
   rewrite Forall_forall in HF. specialize (HF _ Hin). discriminate.
+Qed.
+
+(* the own-call-chain marker (current_context), for every schedule: an unfinished trigger task carries its own
+   marker, a finished one — raised, cancelled or not — has reset it; so a trigger started next in the same asyncio
+   task finds the marker empty and registers itself in async_tasks like any fresh task *)
+Lemma all_schedules_ctx : forall defs mode top prot preds fuel inits sched,
+  let s := run_schedule defs mode top prot preds fuel (init_state mode inits) sched in
+  (forall t, In t (s_tasks s) -> (t_res t = None -> t_ctx t = Some (t_id t)) /\ (t_res t <> None -> t_ctx t = None)) /\
+  (forall e, can_start top preds s e = true -> inherited_ctx preds s e = None).
+Proof.
+  intros defs mode top prot preds fuel inits sched s.
+  assert (HRI : RI s) by (apply schedule_RI; apply init_RI).
+  split.
+  - intros t Ht. destruct HRI as [_ [_ [_ [_ Hctx]]]]. destruct (Hctx t Ht) as [H1 H2]. split; [|exact H2].
+    intros Hr. specialize (H1 Hr). unfold own_ctx in H1. destruct (t_ctx t) as [x|]; [|discriminate].
+    apply Nat.eqb_eq in H1. congruence.
+  - intros e Hc. eapply inherited_none; eauto.
 Qed.
